@@ -26,6 +26,14 @@ CHECKS = {
         "design_ref": "DESIGN.md section 3, C03",
         "note": "Trusted: snapshot probes (public API reads). Known finding K4 (uint64 > 2^53) is excluded from the main generator and probed separately.",
     },
+    "C15": {
+        "technique": "property-based testing of the listed library models with generated frames/parameters against accounting oracles (exact identity, min, idempotence, kernel sum, conservation invariants), repeated over generated steps",
+        "text": "simple_collection (exact sum), simple_conversion (integer 0..photons / exact QE product, 2-D and multi-wavelength), simple_full_well (minimum, idempotent), "
+                "simple_ipc (kernel sums to 1, centre weight, uniform frame, impulse response), cdm parallel/serial (finite, non-negative, no charge created, repeated) and both "
+                "persistence models (pixel + trapped conserved per pixel, trapped >= 0, 1..5 species, capacities, 1..4 steps with refills) are run on generated non-negative frames. Exploration.",
+        "design_ref": "DESIGN.md section 3, C15",
+        "note": "Tolerance 1e-9 relative on conservation sums (fastmath kernels). CDM parameters strictly positive where the model divides.",
+    },
     "C16": {
         "technique": "property-based testing around code-transition points (+-1 ulp) with bounds / monotonicity / saturation oracles; exhaustive enumeration of every transition for 4..12 bits x 4 classic ranges; differential noisy-SAR(zero noise) vs SAR",
         "text": "Signals are constructed at generated code-transition voltages with both float neighbours, interior and far-outside values and infinities, "
